@@ -54,10 +54,28 @@ def scan_trusted(woven):
 
 
 def run_unit(name, rlimit=None, seed=None, timeout=900):
-    r = {'unit': name, 'status': None, 'reason': None, 'woven': None, 'analysis': None, 'res': None, 'trusted': []}
+    """weave + verify one unit.  If the plain weave is rejected by the front end AND the extracted code differs from golden,
+    retry with contract lines attached to changed code dropped (levels 1, 2): the function contracts stay, stale loop
+    invariants / proof hints go.  A unit verified that way is as good as any; one that then fails is reported as a
+    violation of the obligations that no longer hold (DESIGN.md section 8, Brittleness)."""
+    r = _run_unit_level(name, 0, rlimit, seed, timeout)
+    if r['status'] == 'undecided' and r.get('frontend') and r.get('changed'):
+        for level in (1, 2):
+            r2 = _run_unit_level(name, level, rlimit, seed, timeout)
+            if r2['status'] in ('ok', 'failed'):
+                r2['fallback_level'] = level
+                r2['fallback_reason'] = r['reason']
+                return r2
+    return r
+
+
+def _run_unit_level(name, drop_level, rlimit=None, seed=None, timeout=900):
+    r = {'unit': name, 'status': None, 'reason': None, 'woven': None, 'analysis': None, 'res': None, 'trusted': [],
+         'fallback_level': 0}
     try:
         u = U.Unit(name)
-        w = U.Woven(u)
+        w = U.Woven(u, drop_level=drop_level)
+        r['changed'] = any(not f['identical_to_golden'] for f in w.functions)
         r['woven'] = w
         r['trusted'] = scan_trusted(w)
         if w.trusted_changed:
@@ -84,7 +102,7 @@ def run_unit(name, rlimit=None, seed=None, timeout=900):
         base = None
     if base and a['status'] in ('ok', 'failed'):
         tagged_now = sum(1 for l in w.lines if l.lstrip().startswith('//@ob'))
-        if a['verified'] + a['errors'] < base['verified'] or tagged_now < base['tagged_clauses']:
+        if a['verified'] + a['errors'] < base['verified'] or (drop_level == 0 and tagged_now < base['tagged_clauses']):
             r['status'] = 'undecided'
             r['reason'] = 'fewer obligations than the committed baseline (%d functions, %d tagged clauses; baseline %d, %d)' % (
                 a['verified'] + a['errors'], tagged_now, base['verified'], base['tagged_clauses'])
@@ -95,6 +113,7 @@ def run_unit(name, rlimit=None, seed=None, timeout=900):
         r['status'] = 'failed'
     else:
         r['status'] = 'undecided'
+        r['frontend'] = a['status'] == 'frontend'
         msgs = [f.message for f in a['frontend_errors'][:3]]
         r['reason'] = 'verus %s: %s' % (a['status'], '; '.join(msgs) or (res['raw_err'][-300:] if res else ''))
     return r
@@ -329,9 +348,21 @@ def main(argv):
             'verifier_cmd': r['res']['cmd'],
             'source_changes_vs_golden': region_diffs(r['woven']),
             'counterexample': None,
+            'weave_fallback_level': r.get('fallback_level', 0),
+            'weave_fallback_note': ('the plain weave was rejected by the front end (%s); contract lines attached to changed code '
+                                    'were dropped (level %d) and the function contract could not be re-established' % (r.get('fallback_reason'), r.get('fallback_level', 0))) if r.get('fallback_level') else None,
             'note': 'Verus produces no model; the obligation above was discharged on the committed tree and fails on this one. '
                     'Re-run: ./check %s --replay %s' % (prop, path),
         }
+        if path in replay_paths:
+            # several failures of the same obligation kind in one function: one replay file, one line
+            try:
+                prev = json.load(open(path))
+                prev.setdefault('further_failures', []).append({'kind': f.message, 'clause': f.clause, 'labels': f.labels})
+                write_json(path, prev)
+            except (OSError, ValueError):
+                pass
+            continue
         write_json(path, payload)
         replay_paths.append(path)
         lines.append('VIOLATION property=%s replay=%s no-failing-input-found' % (prop, path))
@@ -368,6 +399,7 @@ def main(argv):
                        'verified': (r['analysis'] or {}).get('verified'), 'errors': (r['analysis'] or {}).get('errors'),
                        'wall_s': round(r['res']['wall_s'], 2) if r['res'] else None,
                        'smt_ms': (r['analysis'] or {}).get('smt_ms'),
+                       'weave_fallback_level': r.get('fallback_level', 0),
                        'verus': (r['analysis'] or {}).get('verus_version')} for r in results],
             'other_engines': [{k: v for k, v in e.items() if k not in ('violations',)} for e in extra],
             'known_findings_reported': [k.get('id') for (k, _, _) in known_hits],
